@@ -42,11 +42,17 @@ Exps == {<<>>} \cup {<<l>> \o sg \o <<d>> : l \in ExpLetters, sg \in Signs, d \i
 Js == {<<>>, <<CH_J>>}
 Strings == {sg \o ip \o fp \o ex \o j : sg \in Signs, ip \in Ints, fp \in Fracs, ex \in Exps, j \in Js}
 
-Rec(kind, s, c, k, p, im) == [kind |-> kind, s |-> s, c |-> c, k |-> k, p |-> p, im |-> im]
-Init == st \in {Rec("parse", s, 0, 0, 0, FALSE) : s \in Strings}
-            \cup {Rec("fmt", <<>>, c, k, p, im) :
-                    c \in Counts, k \in (0 - (Den \div 2))..(Den \div 2), p \in Precs, im \in BOOLEAN}
-Next == UNCHANGED st
+Heads == {sg \o ip : sg \in Signs, ip \in Ints}
+Tails == {fp \o ex \o j : fp \in Fracs, ex \in Exps, j \in Js}
+\* Strings == {h \o t : h \in Heads, t \in Tails}: one initial state per head (and per
+\* (count, frac) for rendering) so that TLC's workers share the work; the
+\* successors append every tail (resp. choose every precision and flag)
+Rec(kind, s, c, k, p, im, lvl) == [kind |-> kind, s |-> s, c |-> c, k |-> k, p |-> p, im |-> im, lvl |-> lvl]
+Init == st \in {Rec("parse", h, 0, 0, 0, FALSE, 0) : h \in Heads}
+            \cup {Rec("fmt", <<>>, c, k, -1, FALSE, 0) : c \in Counts, k \in (0 - (Den \div 2))..(Den \div 2)}
+Next == /\ st.lvl = 0
+        /\ \/ st.kind = "parse" /\ \E t \in Tails : st' = [st EXCEPT !.s = st.s \o t, !.lvl = 1]
+           \/ st.kind = "fmt" /\ \E p \in Precs, im \in BOOLEAN : st' = [st EXCEPT !.p = p, !.im = im, !.lvl = 1]
 Spec == Init /\ [][Next]_st
 
 ParseAgrees == st.kind = "parse" => ParseOK(st.s, ParseModel(st.s, PVariant))
